@@ -18,8 +18,8 @@ From C15 Require Export Model Spec.
 Record ctl := mkctl {
   c_str : text; c_pos : nat; c_end : nat;
   c_out : text; c_args : list value; c_apos : Z; c_stop : bool;
-  (* bookkeeping that is not in the Go struct *)
-  c_pre : text;      (* what was written before this control's own buffer: S judges columns on pre ++ out *)
+  (* c_pre: the output of the enclosing controls (c.parent ... since repo_fixes/C15-19); c_taint: bookkeeping that is not in the Go struct *)
+  c_pre : text;      (* what was written before this control's own buffer: columns and fresh lines are judged on pre ++ out *)
   c_taint : bool     (* some consulted site gave different outcomes for M and S *)
 }.
 Definition set_pos (c : ctl) (p : nat) : ctl :=
@@ -164,7 +164,7 @@ Definition dir_repeat (t : text) (ps : list param) (c : ctl) : pres :=
 Definition dir_amp (ps : list param) (c : ctl) : pres :=
   match fst (first_int ps 1) with
   | GOk n =>
-      let i := go_fresh n (c_out c) in
+      let i := go_fresh n (c_pre c ++ c_out c) in      (* c.lastByte(): the enclosing controls included *)
       let s := std_fresh n (c_pre c ++ c_out c) in
       Ok (emit_n (add_taint c (negb (Nat.eqb i s))) [nl] (pick i s), false)
   | GErr => err c
@@ -281,7 +281,7 @@ Definition dir_tab (colon at_ : bool) (ps : list param) (c : ctl) : pres :=
   match get_int 0 ps 0 true, get_int 1 ps 1 true with
   | GOk colnum, GOk colinc =>
       let given (i : nat) := match nth_error ps i with Some (PInt _) | Some (PVal (VInt _)) => true | _ => false end in
-      let i := go_tab at_ (Z.to_nat colnum) (Z.to_nat colinc) (c_out c) in
+      let i := go_tab at_ (Z.to_nat colnum) (Z.to_nat colinc) (c_pre c ++ c_out c) in     (* c.column() *)
       (* the definition: both parameters default to 1; the column is the one of the whole output *)
       let cn := if given 0%nat then Z.to_nat colnum else 1%nat in
       let cur := column (c_pre c ++ c_out c) in
